@@ -23,14 +23,23 @@ Definition NHDR : N := 12.   (* sizeof(Elf32_Nhdr) *)
 (** loop state: offset of [hdr] in the buffer, remaining [size], notes so far *)
 Definition nstate := (N * N * list note)%type.
 
-Definition notes_body (be : bool) (c : chunk) (s : nstate) : nstate + res (list note) :=
+(** Arithmetic widths as in the C source: [namesz], [descsz], [type] are
+    [Elf32_Word]; [descoff] is a [size_t], so [descoff + descsz] is a 64-bit
+    sum of a value below 2^32+16 and a value below 2^32 and cannot wrap: it is
+    modelled without reduction.  [narrow = true] is the variant in which
+    [descoff] is declared as an [Elf32_Word] as well (both the offset and the
+    sum of the bounds check are reduced modulo 2^32); it is *not* the code and
+    exists so that the difference is expressible ([C03_notes_narrow_descoff_refuted]). *)
+Definition wrap32 (narrow : bool) (x : N) : N := if narrow then x mod 4294967296 else x.
+
+Definition notes_body_w (narrow be : bool) (c : chunk) (s : nstate) : nstate + res (list note) :=
   let '(o, size, acc) := s in
   if size <? NHDR then inr (Ok (rev_append acc []))                      (* while (size >= sizeof(Elf32_Nhdr)) *)
   else
     match cu32 be c o, cu32 be c (o + 4), cu32 be c (o + 8) with
     | Ok namesz, Ok descsz, Ok type =>
-      let descoff := NHDR + roundup4 namesz in
-      if size <? descoff + descsz then inr (Ok (rev_append acc []))       (* break *)
+      let descoff := wrap32 narrow (NHDR + roundup4 namesz) in
+      if size <? wrap32 narrow (descoff + descsz) then inr (Ok (rev_append acc []))       (* break *)
       else
         match csub c (o + NHDR) namesz, csub c (o + descoff) descsz with
         | Some name, Some desc =>
@@ -43,16 +52,21 @@ Definition notes_body (be : bool) (c : chunk) (s : nstate) : nstate + res (list 
     | _, _, _ => inr OOB
     end.
 
+(** the code: [size_t descoff] *)
+Definition notes_body := notes_body_w false.
+
 (** fuel: every iteration consumes at least the 12 header bytes *)
 Definition notes_fuel (size : N) : N := size / NHDR + 1.
 
 (** [do_notes(ctx, data, size, do_note)] where [data] is the chunk [c] and
     [size = clen c] (as all callers pass) *)
-Definition do_notes (be : bool) (c : chunk) : res (list note) :=
-  match loopN (notes_body be c) (notes_fuel (clen c)) (0, clen c, []) with
+Definition do_notes_w (narrow be : bool) (c : chunk) : res (list note) :=
+  match loopN (notes_body_w narrow be c) (notes_fuel (clen c)) (0, clen c, []) with
   | inr r => r
   | inl _ => OutOfFuel
   end.
+
+Definition do_notes := do_notes_w false.
 
 (** [note_equal(name, notename, notenamesz)]: [lit] is the C string literal
     without its terminating NUL *)
